@@ -100,10 +100,11 @@ theorem tinylfu_queries_total (t : TinyLfu) (hwf : t.WF) (a b : UInt64) (c : Tin
   obtain ⟨r, hr, _⟩ := TinyLfu.contains_spec t hwf a
   exact ⟨⟨_, he⟩, ⟨_, hr⟩, TinyLfu.compare_total t hwf c a b⟩
 
-/-- the count-min sketch built for any requested width `1 ≤ ctrs ≤ 2^32` (the 32-bit smear of `next_power_of_2`) has
-    four rows, each long enough for every position its mask lets through: the row part of `Sketch.WF` holds by
-    construction, not by inspection of the built value -/
-theorem sketch_geometry (ctrs : Nat) (sch : Scheme) (h1 : 1 ≤ ctrs) (h2 : ctrs ≤ 2 ^ 32) :
+/-- the count-min sketch built for ANY requested width `1 ≤ ctrs < 2^64` (`next_power_of_2`, repaired to smear all 64 bits)
+    has four rows, each long enough for every position its mask lets through: the row part of `Sketch.WF` holds by
+    construction, not by inspection of the built value. (With the original 32-bit smear this failed just above 2^32:
+    `TinyLFU::new(2^32 + 1, ..)` indexed one byte past its rows — reported by the `bigsketch` probe, then repaired.) -/
+theorem sketch_geometry (ctrs : Nat) (sch : Scheme) (h1 : 1 ≤ ctrs) (h2 : ctrs < 2 ^ 64) :
     ∃ s, Sketch.new ctrs sch = some s ∧ s.rows.length = 4 ∧ s.scheme = sch ∧
       ∀ r ∈ s.rows, Row.WF r ∧ s.mask.toNat / 2 < r.length := Sketch.new_geometry ctrs sch h1 h2
 
